@@ -53,12 +53,47 @@ fn ctx_from_env(tier: Tier) -> Result<Ctx, String> {
     })
 }
 
+static LAST_FOREIGN_PANIC: std::sync::Mutex<Option<String>> = std::sync::Mutex::new(None);
+static LAST_OWN_PANIC: std::sync::Mutex<Option<String>> = std::sync::Mutex::new(None);
+
 fn main() {
     // expected failures inside solstat (panics, simulated exits) stay quiet
     out::init();
-    std::panic::set_hook(Box::new(|_| {}));
+    // ... but a panic raised by the simulator's own code is remembered (location and message), so
+    // that a defect of the harness ends as "HARNESS: ..." with exit status 2, never silently
+    std::panic::set_hook(Box::new(|info| {
+        if let Some(loc) = info.location() {
+            let file = loc.file();
+            let own = !file.contains("/repo/") && !file.contains("solang") && (file.starts_with("src/") || file.contains("/verif/"));
+            if own {
+                let msg = if let Some(s) = info.payload().downcast_ref::<&str>() {
+                    s.to_string()
+                } else if let Some(s) = info.payload().downcast_ref::<String>() {
+                    s.clone()
+                } else {
+                    String::new()
+                };
+                if let Ok(mut g) = LAST_OWN_PANIC.lock() {
+                    if g.is_none() {
+                        *g = Some(format!("{}:{}: {}", file, loc.line(), msg));
+                    }
+                }
+            } else if let Ok(mut g) = LAST_FOREIGN_PANIC.lock() {
+                let msg = if let Some(s) = info.payload().downcast_ref::<&str>() { s.to_string() } else if let Some(s) = info.payload().downcast_ref::<String>() { s.clone() } else { String::new() };
+                *g = Some(format!("{}:{}: {}", file, loc.line(), msg.chars().take(200).collect::<String>()));
+            }
+        }
+    }));
     let args: Vec<String> = std::env::args().collect();
-    let code = real_main(&args);
+    let code = match std::panic::catch_unwind(|| real_main(&args)) {
+        Ok(c) => c,
+        Err(_) => {
+            let what = LAST_OWN_PANIC.lock().ok().and_then(|g| g.clone()).unwrap_or_else(|| "panic outside the simulator's own sources".into());
+            let foreign = LAST_FOREIGN_PANIC.lock().ok().and_then(|g| g.clone()).unwrap_or_default();
+            say!("HARNESS: internal error (panic) {}; last panic outside the simulator's sources: {}", what, foreign);
+            2
+        }
+    };
     std::process::exit(code);
 }
 
